@@ -9,7 +9,8 @@
    excluded.  The candidate set is the brute-force specification of FileSet.find (property C01). *)
 From Coq Require Import ZArith List Bool Ascii String.
 From Typhon Require Import Base.Calendar Base.CalendarProofs Model.C02_template Proofs.C02_template
-  Model.C16_closest Proofs.C16_closest.
+  Model.C16_closest Proofs.C16_closest Model.C16_tree Proofs.C16_tree.
+From Typhon Require Model.C03_tree Model.C01_find Proofs.C01_find.
 Import ListNotations.
 Open Scope Z_scope.
 
@@ -96,6 +97,250 @@ Proof.
   intros H. apply closest_ok_iff_spec_thm in H. vm_compute in H. discriminate H.
 Qed.
 
+(* ====================================================================================================
+   EXTENSION (Model/C16_tree.v, Proofs/C16_tree.v): the candidate set is no longer a specification taken on trust.
+   F = Model/C01_find (the model of FileSet.find: directory walk with look-back, per-level truncation, year-only
+   fallback, overlap, exclusion tree, filters).  fs : list F.file = the files of a TREE in the order of the walk. *)
+
+(* ---- (3) ties: WHICH file the code returns.  No hypotheses: the search of Model/C16_closest answers r iff r is
+   the FIRST file in find order that covers t, or -- when no file found covers t -- the FIRST file in find order
+   whose end-point distance is minimal (np.argmin), or None when find yields nothing.  The rule determines the
+   answer uniquely (the <-> below): any other index, minimiser or not, is not what the code returns. *)
+Theorem search_first_in_order : forall fs q P t r,
+  search fs q P t = r <-> FirstSpec ft0 ft1 (found q P t) t fs r.
+Proof. exact search_first_in_order_thm. Qed.
+
+(* the property allows ANY minimiser: when no candidate covers t the checker accepts index i exactly when file i is a
+   candidate of minimal end-point distance; when some candidate covers t, exactly the covering candidates *)
+Theorem accepts_exactly_minimisers : forall fs q P t i,
+  (forall f, candidate fs q P t f -> ~ covers t f) ->
+  (closest_ok fs q P t (Some i) = true <->
+   exists g, nth_error fs i = Some g /\ candidate fs q P t g /\
+             forall f, candidate fs q P t f -> dist t g <= dist t f).
+Proof. exact accepts_exactly_minimisers_thm. Qed.
+
+Theorem accepts_exactly_covering : forall fs q P t i,
+  (exists f, candidate fs q P t f /\ covers t f) ->
+  (closest_ok fs q P t (Some i) = true <->
+   exists g, nth_error fs i = Some g /\ candidate fs q P t g /\ covers t g).
+Proof. exact accepts_exactly_covering_thm. Qed.
+
+(* ---- (1) the window.  _sub_dir_time_resolution is a fixed timedelta: the period computed from the template's
+   tokens (Model/C16_closest.period_of) is the look-back of C01's layout, i.e. Calendar.period of the finest
+   directory placeholder, for every layout carrying the template's directory placeholders; the hypothesis is a
+   boolean evaluated per generated template on layout_of tp *)
+Theorem period_is_lookback : forall tp lay, fields_of_layout tp lay -> period_of tp = tree_period lay.
+Proof. exact period_is_lookback_thm. Qed.
+
+Theorem fields_of_layout_decided : forall tp lay, fields_of_layoutb tp lay = true -> fields_of_layout tp lay.
+Proof. exact fields_of_layout_decided_thm. Qed.
+
+(* the files tree_search chooses from are those of C01's find(start, end, sort=False) for the window, in the
+   order of the walk; C01's find_model is the same search followed by the sort *)
+Theorem tree_search_uses_find : forall lay fs w b ex t l,
+  window_overflows lay t = false ->
+  find_unsorted lay fs (window_query lay t w b ex) = F.Ok l ->
+  exists L, map snd L = l /\
+    tree_search lay fs w b ex t = match gchoose F.t0 F.t1 t L with Some i => TFile i | None => TNone end /\
+    F.find_model lay fs (window_query lay t w b ex) = F.Ok (F.sort_key l).
+Proof. exact tree_search_uses_find_thm. Qed.
+
+(* a candidate on the tree = C01's brute-force `selected` for the window: the coverage meets [start, end), the file
+   is not excluded and passes the filters *)
+Theorem candidate_is_window_overlap : forall lay t w b ex f,
+  tcand lay t w b ex f = true <->
+  F.t0 f < snd (window lay t) /\ fst (window lay t) <= F.t1 f /\
+  F.excluded_spec (window_query lay t w b ex) f = false /\ F.passes (window_query lay t w b ex) f = true.
+Proof. exact tcand_iff. Qed.
+
+(* CORE of the extension.  On every tree inside C01's hypotheses (directory placeholders without gap, files in the
+   directory of their start, coverage no longer than one directory period), for every timestamp whose window
+   stays inside datetime, every filter and exclusion: the composed model -- exact-name short cut, window from the
+   layout, C01's directory walk, first covering / first nearest -- returns a candidate that covers t whenever a
+   candidate covers t, otherwise a candidate of minimal end-point distance; None iff the tree has no candidate.
+   `exact` is the file get_filename(t) names (if any); it covers t (t at the resolution of the names). *)
+Theorem closest_end_to_end : forall lay fs exact filtered w b ex t,
+  tree_hyps lay fs -> window_ok lay t -> Forall (fun '(a, b) => a <= b) ex ->
+  (filtered = false -> w = [] /\ b = []) ->
+  (forall i f, exact = Some i -> nth_error fs i = Some f -> F.t0 f <= t <= F.t1 f) ->
+  exists r, tree_closest lay fs exact filtered w b ex t = o2t r /\ TreeSpec lay fs w b ex t r.
+Proof. exact tree_closest_end_to_end_thm. Qed.
+
+(* ... and the search proper returns the FIRST such file in the order of the walk *)
+Theorem tree_first_in_walk_order : forall lay fs w b ex t,
+  tree_hyps lay fs -> window_ok lay t -> Forall (fun '(a, b) => a <= b) ex ->
+  exists r, tree_search lay fs w b ex t = match r with Some i => TFile i | None => TNone end /\
+            FirstSpec F.t0 F.t1 (tcand lay t w b ex) t fs r.
+Proof. exact closest_end_to_end_thm. Qed.
+
+(* the model the correspondence runs (Model/C16_closest: names, short cut through C02's render, flat listing) IS the
+   composed model, on every listing that describes the tree (same coverages, same verdicts of filters and
+   exclusions, file by file): "candidate set = specification of find" is now derived from C01's algorithm *)
+Theorem composed_is_flat_model : forall tp fill lay fs emb q w b t,
+  fields_of_layout tp lay -> tree_hyps lay fs -> window_ok lay t -> Forall (fun '(a, b) => a <= b) (q_xtimes q) ->
+  agrees emb q (window_query lay t w b (q_xtimes q)) fs -> Forall file_ok (map emb fs) ->
+  closest_model tp fill (map emb fs) q t =
+  t2o (tree_closest lay fs (exact_name tp fill (map emb fs) t) (q_filtered q) w b (q_xtimes q) t).
+Proof. exact composed_is_flat_thm. Qed.
+
+(* the hypotheses above are the booleans the correspondence evaluates per tree / per query *)
+Theorem tree_hyps_decided : forall lay fs, F.hyps lay fs = true -> tree_hyps lay fs.
+Proof. exact Proofs.C16_tree.tree_hyps_decided. Qed.
+
+Theorem window_ok_decided : forall lay t, window_okb lay t = true <-> window_ok lay t.
+Proof. exact window_okb_iff. Qed.
+
+(* ---- (4) edges of the window (P = one directory period, lay has sub-directories).
+   Closed on the left, open on the right: a file ENDING exactly at t - P is a candidate, one microsecond earlier it is
+   not; a file STARTING exactly at t + P is not a candidate, one microsecond earlier it is. *)
+Theorem window_edges : forall c rest t w b ex f,
+  let lay := c :: rest in let P := F.lookback lay in
+  F.t0 f <= F.t1 f ->
+  F.excluded_spec (window_query lay t w b ex) f = false -> F.passes (window_query lay t w b ex) f = true ->
+  (F.t1 f = t - P -> tcand lay t w b ex f = true) /\
+  (F.t0 f = t + P -> tcand lay t w b ex f = false) /\
+  (F.t1 f < t - P -> tcand lay t w b ex f = false) /\
+  (F.t0 f = t + P - 1 -> tcand lay t w b ex f = true).
+Proof. exact window_edges_thm. Qed.
+
+(* a file that covers t -- t its first instant, its last instant, or inside; the file in the directory of t or, as
+   files may outlast their directory, in the one before -- is a candidate; by closest_end_to_end the answer then
+   covers t *)
+Theorem covering_is_candidate : forall lay t w b ex f,
+  window_ok lay t -> F.t0 f <= t <= F.t1 f ->
+  F.excluded_spec (window_query lay t w b ex) f = false -> F.passes (window_query lay t w b ex) f = true ->
+  tcand lay t w b ex f = true.
+Proof. exact covering_is_candidate_thm. Qed.
+
+(* fixed-length directory levels (day, hour, minute, second: the directory of x is x / P): a file two or more
+   directories after the directory of t, or ending two or more directories before it, is no candidate, however
+   near it is compared with every other file *)
+Theorem two_directories_away : forall c rest t w b ex f,
+  let lay := c :: rest in let P := F.lookback lay in
+  F.t0 f <= F.t1 f ->
+  (dir_index P t + 2 <= dir_index P (F.t0 f) \/ dir_index P (F.t1 f) + 2 <= dir_index P t) ->
+  tcand lay t w b ex f = false.
+Proof. exact two_directories_away_thm. Qed.
+
+(* ... and when the tree holds no candidate the answer is the absence, never the nearest of the far files *)
+Theorem far_files_absent : forall lay fs w b ex t,
+  tree_hyps lay fs -> window_ok lay t -> Forall (fun '(a, b) => a <= b) ex ->
+  (forall f, In f fs -> tcand lay t w b ex f = false) ->
+  tree_search lay fs w b ex t = TNone.
+Proof. exact far_files_absent_thm. Qed.
+
+(* ---- (2) fileset[...]: the dispatch of __getitem__ (parse = to_datetime on a string, closest = find_closest).
+   fileset[datetime] and fileset["..."] are find_closest without filters; fileset[t, filters] -- a tuple or a list
+   whose first two items are the timestamp and the filters, further items ignored -- is find_closest with those
+   filters; fileset[t, None] is find_closest without filters *)
+Theorem getitem_datetime : forall (parse : str -> Z) (R : Type) (closest : Z -> option filters -> option R) t,
+  getitem parse closest (PDatetime t) = of_closest (closest t None).
+Proof. intros parse R closest t. exact (getitem_datetime_lemma parse closest t). Qed.
+
+Theorem getitem_string : forall (parse : str -> Z) (R : Type) (closest : Z -> option filters -> option R) s,
+  getitem parse closest (PStr s) = of_closest (closest (parse s) None).
+Proof. intros parse R closest s. exact (getitem_str_lemma parse closest s). Qed.
+
+Theorem getitem_with_filters : forall (parse : str -> Z) (R : Type) (closest : Z -> option filters -> option R) t s f rest,
+  getitem parse closest (PSeq (PDatetime t :: PFilters f :: rest)) = of_closest (closest t (Some f)) /\
+  getitem parse closest (PSeq (PStr s :: PFilters f :: rest)) = of_closest (closest (parse s) (Some f)) /\
+  getitem parse closest (PSeq (PDatetime t :: PNone :: rest)) = of_closest (closest t None).
+Proof.
+  intros parse R closest t s f rest.
+  exact (conj (getitem_seq_datetime_lemma parse closest t f rest)
+              (conj (getitem_seq_str_lemma parse closest s f rest) (getitem_seq_none_lemma parse closest t rest))).
+Qed.
+
+(* whatever the fileset is indexed with, a file is read only when find_closest names it for the timestamp and the
+   filters the item designates (never another file) *)
+Theorem getitem_reads_closest : forall (parse : str -> Z) (R : Type) (closest : Z -> option filters -> option R) item r,
+  getitem parse closest item = ORead r ->
+  exists t f, closest t f = Some r /\
+    ((item = PDatetime t /\ f = None) \/ (exists s, item = PStr s /\ t = parse s /\ f = None) \/
+     (exists ta fl rest, item = PSeq (ta :: fl :: rest) /\ as_filters fl = Some f /\
+                         (ta = PDatetime t \/ exists s, ta = PStr s /\ t = parse s))).
+Proof. intros parse R closest item r. exact (getitem_reads_closest_lemma parse closest item r). Qed.
+
+(* therefore fileset[t] / fileset[t, filters] with the model of find_closest meets the property's specification *)
+Theorem getitem_meets_spec : forall parse tp fill fs xn xt item,
+  Forall file_ok fs -> (forall t, name_hyp tp fill fs t) ->
+  match getitem parse (closest_call tp fill fs xn xt) item with
+  | ORead i => exists t f, ClosestSpec fs (with_filters xn xt f) (period_of tp) t (Some i)
+  | _ => True
+  end.
+Proof. exact getitem_meets_spec_thm. Qed.
+
+(* non-vacuity of the extension.
+   T1: /R/{year}/{month}/{day}/..., P = 1 day, t = 2018-03-02 00:00 exactly on a directory boundary.  Walk order:
+       [0] 2018/02/27 10:00-11:00 (three directories before: no candidate)
+       [1] 2018/03/01 20:00-21:00 (nearest end 3 h before t)   [2] 2018/03/01 22:00 - 03/02 00:00 (its LAST instant is t)
+       [3] 2018/03/02 00:00-02:00 (its FIRST instant is t)     [4] 2018/03/02 03:00-04:00   [5] 2018/03/04 00:00-01:00
+   the hypotheses hold; the answer is [2], the first covering file in walk order, which lies in the PREVIOUS directory;
+   with [2] and [3] excluded by name the nearest is [1] (3 h) and not [4]; asked at 2018-03-03 00:00 with [2] and [4]
+   excluded, [3] (22 h) is returned ([5] starts exactly at t + P: outside the semi-open window); asked at 03-06 12:00
+   nothing is returned: [5] lies two directories away; with the exact-name short cut on [3] (get_filename(t) names it)
+   [3] is returned, and [2] when [3] is excluded.
+   T2: /R/{year}/{month}/..., P = 31 days (fixed), t = 2018-01-31 23:00: the only file starts 2018-03-01 00:00, TWO month
+   directories later but 28 d 1 h away: it is inside the window and is returned; from 2018-01-28 23:00 it is not. *)
+Example nonvacuous_tree :
+  let d := fun y m dd h => ymdh y m dd h in
+  let lay := [F.CPat [F.FYear]; F.CPat [F.FMonth]; F.CPat [F.FDay]] in
+  let mk := fun i a b x => F.mkfile i a b a [] x in
+  let fs := fun x2 x3 x4 =>
+    [mk 0 (d 2018 2 27 10) (d 2018 2 27 11) false; mk 1 (d 2018 3 1 20) (d 2018 3 1 21) false;
+     mk 2 (d 2018 3 1 22) (d 2018 3 2 0) x2; mk 3 (d 2018 3 2 0) (d 2018 3 2 2) x3;
+     mk 4 (d 2018 3 2 3) (d 2018 3 2 4) x4; mk 5 (d 2018 3 4 0) (d 2018 3 4 1) false] in
+  let tp := [Lit (s2l "/R/"); T false FYear; Lit (s2l "/"); T false FMonth; Lit (s2l "/"); T false FDay;
+             Lit (s2l "/"); T false FYear; T false FMonth; T false FDay; Lit (s2l "T"); T false FHour;
+             Lit (s2l "-"); T true FDay; Lit (s2l "T"); T true FHour; Lit (s2l ".dat")] in
+  let lay2 := [F.CPat [F.FYear]; F.CPat [F.FMonth]] in
+  let fs2 := [mk 0 (d 2018 3 1 0) (d 2018 3 1 6) false] in
+  layout_eqb (layout_of tp) lay = true /\ fields_of_layout tp lay /\ period_of tp = Some us_day /\
+  tree_hyps lay (fs false false false) /\ window_ok lay (d 2018 3 2 0) /\
+  tree_search lay (fs false false false) [] [] [] (d 2018 3 2 0) = TFile 2 /\
+  tree_search lay (fs true true false) [] [] [] (d 2018 3 2 0) = TFile 1 /\
+  tree_search lay (fs true false true) [] [] [] (d 2018 3 3 0) = TFile 3 /\
+  tree_search lay (fs false false false) [] [] [] (d 2018 3 6 12) = TNone /\
+  tcand lay (d 2018 3 6 12) [] [] [] (mk 5 (d 2018 3 4 0) (d 2018 3 4 1) false) = false /\
+  tree_closest lay (fs false false false) (Some 3%nat) false [] [] [] (d 2018 3 2 0) = TFile 3 /\
+  tree_closest lay (fs false true false) (Some 3%nat) false [] [] [] (d 2018 3 2 0) = TFile 2 /\
+  tree_hyps lay2 fs2 /\ window_ok lay2 (d 2018 1 31 23) /\ tree_period lay2 = Some (31 * us_day) /\
+  tree_search lay2 fs2 [] [] [] (d 2018 1 31 23) = TFile 0 /\
+  tree_search lay2 fs2 [] [] [] (d 2018 1 28 23) = TNone /\
+  getitem (fun _ => d 2018 3 2 0) (fun t f => t2o (tree_search lay (fs false false false) [] [] [] t))
+          (PSeq [PStr (s2l "2018-03-02"); PNone]) = ORead 2%nat /\
+  getitem (fun _ => 0) (fun t (f : option filters) => @None nat) (PSeq [PDatetime 0]) = OIndexError.
+Proof.
+  cbv zeta.
+  split; [vm_compute; reflexivity|].
+  split; [apply fields_of_layout_decided_thm; vm_compute; reflexivity|].
+  split; [vm_compute; reflexivity|].
+  split; [apply Proofs.C16_tree.tree_hyps_decided; vm_compute; reflexivity|].
+  split; [apply window_okb_iff; vm_compute; reflexivity|].
+  do 7 (split; [vm_compute; reflexivity|]).
+  split; [apply Proofs.C16_tree.tree_hyps_decided; vm_compute; reflexivity|].
+  split; [apply window_okb_iff; vm_compute; reflexivity|].
+  repeat split; vm_compute; reflexivity.
+Qed.
+
+(* non-vacuity of the bridge: a flat listing with names describes T1 (agrees), its search is the tree's *)
+Example nonvacuous_bridge :
+  let d := fun y m dd h => ymdh y m dd h in
+  let lay := [F.CPat [F.FYear]; F.CPat [F.FMonth]; F.CPat [F.FDay]] in
+  let mk := fun i a b x => F.mkfile i a b a [] x in
+  let fs := [mk 1 (d 2018 3 1 20) (d 2018 3 1 21) false; mk 2 (d 2018 3 1 22) (d 2018 3 2 0) true;
+             mk 4 (d 2018 3 2 3) (d 2018 3 2 4) false] in
+  let emb := fun f : F.file => File (if F.name_excl f then s2l "x" else s2l "n") (F.t0 f) (F.t1 f) [] in
+  let q := Query false [] [] [s2l "x"] [] in
+  let t := d 2018 3 2 0 in
+  agrees emb q (window_query lay t [] [] []) fs /\ Forall file_ok (map emb fs) /\
+  search (map emb fs) q (tree_period lay) t = Some 0%nat /\ tree_search lay fs [] [] [] t = TFile 0.
+Proof.
+  cbv zeta. split.
+  - intros f [<-|[<-|[<-|[]]]]; vm_compute; repeat split; reflexivity.
+  - split; [apply all_okb; vm_compute; reflexivity|]. split; vm_compute; reflexivity.
+Qed.
+
 (* non-vacuity: a template with temporal sub-directories (P = 31 days), overlapping files, a gap with a tie, a
    far-away file; the hypotheses hold; the model takes the short cut, avoids the excluded / filtered-out file,
    picks the nearer end in the gap, accepts both files of a tie and rejects a farther one, and reports absence
@@ -147,3 +392,24 @@ Print Assumptions exact_name_covers.
 Print Assumptions single_file_always.
 Print Assumptions single_file_consistent.
 Print Assumptions asis_refuted.
+Print Assumptions search_first_in_order.
+Print Assumptions accepts_exactly_minimisers.
+Print Assumptions accepts_exactly_covering.
+Print Assumptions period_is_lookback.
+Print Assumptions fields_of_layout_decided.
+Print Assumptions tree_search_uses_find.
+Print Assumptions candidate_is_window_overlap.
+Print Assumptions closest_end_to_end.
+Print Assumptions tree_first_in_walk_order.
+Print Assumptions composed_is_flat_model.
+Print Assumptions tree_hyps_decided.
+Print Assumptions window_ok_decided.
+Print Assumptions window_edges.
+Print Assumptions covering_is_candidate.
+Print Assumptions two_directories_away.
+Print Assumptions far_files_absent.
+Print Assumptions getitem_datetime.
+Print Assumptions getitem_string.
+Print Assumptions getitem_with_filters.
+Print Assumptions getitem_reads_closest.
+Print Assumptions getitem_meets_spec.
